@@ -307,6 +307,14 @@ func (r *runner) step(step Step) error {
 		case step.How == "fail": // DB.Update whose closure fails: nothing may be applied
 			r.c.Discard()
 			r.c.UpdateFailing(step.Puts, errFail)
+			if len(step.Puts) > 0 && step.Puts[0][1]%2 == 0 {
+				// the closure kept the *Txn: it is finished, every further use must say so
+				p := step.Puts[0]
+				r.c.Put(p[0], p[1])
+				r.c.Put(p[0], 0)
+				r.c.Get(p[0])
+				r.c.Commit()
+			}
 		case step.How == "discard-read":
 			for _, p := range step.Puts {
 				r.c.Get(p[0])
@@ -333,6 +341,7 @@ func (r *runner) step(step Step) error {
 			r.c.Put(k, v)
 			r.c.Discard()
 			r.c.Put(k, v+1)
+			r.c.Put(k, 0)
 			r.c.Get(k)
 			r.c.Commit()
 			r.c.Discard()
@@ -349,6 +358,10 @@ func (r *runner) step(step Step) error {
 			}
 			r.c.Commit()
 			r.c.Put(k, v+1)
+			r.c.Put(k, 0)
+			r.c.Discard()
+			r.c.Get(k)
+			r.c.Commit()
 		case "closed":
 			r.drain()
 			r.st.Close()
